@@ -19,6 +19,7 @@ import (
 	"github.com/osmosis-labs/osmosis/v31/x/lockup"
 	lockupkeeper "github.com/osmosis-labs/osmosis/v31/x/lockup/keeper"
 	lockuptypes "github.com/osmosis-labs/osmosis/v31/x/lockup/types"
+	sftypes "github.com/osmosis-labs/osmosis/v31/x/superfluid/types"
 	"github.com/osmosis-labs/osmosis/v31/zzverif/chain"
 	"github.com/osmosis-labs/osmosis/v31/zzverif/vk"
 )
@@ -487,9 +488,27 @@ func runC06(c *vk.Ctx) {
 				outcome = fmt.Sprintf("n%d", min(n, 3))
 			case k < 60:
 				op = "ExtendLockup"
-				l := pick(func(l *c06Lock) bool { return l.owner == oi && !l.unlocking() })
+				wantUnlocking := r.Intn(4) == 0
+				l := pick(func(l *c06Lock) bool { return l.owner == oi && l.unlocking() == wantUnlocking })
 				if l == nil {
 					continue
+				}
+				if l.unlocking() {
+					// extending a lock that is already unlocking: the code refuses; were it accepted, the
+					// statement's "never before its unlock start plus its duration" moves the end time out
+					op = "ExtendLockup(unlocking)"
+					nd := l.dur + time.Duration(1+r.I64n(int64(10*24*time.Hour)))
+					c.Logf("ExtendLockup(owner %d, unlocking id %d, %s -> %s)", oi, l.id, l.dur, nd)
+					res := ch.Exec(&lockuptypes.MsgExtendLockup{Owner: o.Addr.String(), ID: l.id, Duration: nd})
+					if res.OK() {
+						outcome = "extended-while-unlocking"
+						l.end = l.end.Add(nd - l.dur)
+						l.dur = nd
+						usedDur[nd] = true
+					} else {
+						outcome = "rejected-unlocking"
+					}
+					break
 				}
 				nd := l.dur + time.Duration(1+r.I64n(int64(10*24*time.Hour)))
 				if r.Intn(3) == 0 {
@@ -671,6 +690,12 @@ func lockIDFrom(res chain.ExecResult) uint64 {
 	for _, mr := range res.Res.MsgResponses {
 		if strings.Contains(mr.TypeUrl, "MsgLockTokensResponse") {
 			var r lockuptypes.MsgLockTokensResponse
+			if err := r.Unmarshal(mr.Value); err == nil {
+				return r.ID
+			}
+		}
+		if strings.Contains(mr.TypeUrl, "MsgLockAndSuperfluidDelegateResponse") {
+			var r sftypes.MsgLockAndSuperfluidDelegateResponse
 			if err := r.Unmarshal(mr.Value); err == nil {
 				return r.ID
 			}
